@@ -95,6 +95,7 @@ fn chain_scenario(stages: Vec<Stage>, n: usize, batch: BatchMode, cap: usize, p:
         max_execs: 0,
         shards: 1,
         nontrivial: n >= 2,
+        unbounded: false,
     }
 }
 
